@@ -28,26 +28,39 @@ from ref import scsv_ref as REF
 
 PID = "C16"
 RULE = (
-    "round-trip family: points = (type tuple, delimiter, missing marker, field-name letter, unit letter, "
+    "round-trip family: a point = (type tuple, delimiter, missing marker, field-name letter, unit letter, "
     "dict/terse route, fill letter per field, cell letter per column, row count, container); all points with "
-    "<= k axes off their default letter (type tuples: all 155 tuples of 1-3 fields plus a pairwise-covering set "
-    "for 4..8 fields; default tuple = one field of each type), only representable cells and only schemas that "
-    "satisfy the documented constraints; one case = one schema (<= k deviations) evaluating all data sets within "
-    "the remaining budget, plus one packed data set per schema holding every representable cell letter of every "
-    "column. Fault family: every single-fault corruption (schema key / field / delimiter / marker faults through "
-    "save_scsv and write_scsv_header, data faults through save_scsv, on-disk faults through read_scsv) of a set "
-    "of valid bases. A data set is non-trivial when its file holds a missing marker, a quoted or non-ASCII token, "
-    "a non-finite number, or its schema deviates from the default; distinct = distinct file content."
+    "<= k axes off their default letter are enumerated (type tuples: all 155 tuples of 1-3 fields plus a "
+    "pairwise-covering set for 4..8 fields; default tuple = one field of each type), restricted to representable "
+    "cells and to schemas that satisfy the documented constraints; the featured cell of column j sits in row "
+    "j mod n, the other rows hold boring distinct values. One case = one schema (s <= k deviations) evaluating "
+    "every data set within the remaining budget k-s, plus one packed data set per schema that holds every "
+    "representable cell letter of every column (a screen for schema x cell letter beyond the budget; failures "
+    "are localised through single-letter points). A schema whose plain data set already fails as a whole "
+    "(save/read raises) is reported once and its other data sets are counted as masked. Fault family: every "
+    "single-fault corruption of a set of valid bases - schema faults through save_scsv and write_scsv_header, "
+    "data faults through save_scsv, file faults (edited on disk) through read_scsv; each fault is first "
+    "confirmed to be a fault by the reference model. A violating point is reported only if no immediate "
+    "sub-point (one deviation reset) violates the same (clause, form, column type): the enumeration is downward "
+    "closed, so each minimal violating point reports itself and its key lists exactly its deviating letters. "
+    "A data set is non-trivial when its file holds a missing marker, a quoted or non-ASCII token, a non-finite "
+    "number, or its schema deviates from the default; distinct = distinct file content (<= 64 ids kept per "
+    "case, the full count is in notes.nontrivial_roundtrips)."
 )
 ASSUMPTIONS = [
-    "the reference model ref/scsv_ref.py (typed rows; cell == fill -> fill, NaN equal to NaN per component; "
-    "otherwise the identical typed value including the sign of zero) states the property correctly",
+    "the reference model ref/scsv_ref.py (typed rows; cell == fill -> fill, where NaN equals NaN per component "
+    "and -0.0 == 0.0 as for Python ==; otherwise the identical typed value of the exact Python type, NaN ~ NaN, "
+    "sign of zero preserved) states the property correctly",
     "the Python csv module (strict dialect, no skipinitialspace) is trusted to tokenise the written file body "
     "for the on-disk missing-marker clause; str()/float()/complex() are exact inverses for Python scalars",
     "boolean columns are exempt from the missing-marker clauses (documented: they cannot have missing values)",
     "a multi-character delimiter must be refused, but TypeError is tolerated besides the SCSV error (pinned by "
-    "tests/test_scsv.py and absent from the statement's fault list)",
-    "file system writes under the per-process work directory are reliable; locale encoding is UTF-8",
+    "tests/test_scsv.py::test_validate_schema and absent from the statement's fault list)",
+    "a partial file must be absent only after the wrong-column-count refusal (the only place where the code "
+    "unlinks); files left by other refusals are counted in notes, not reported",
+    "a violation whose (clause, form, column type) also occurs at an immediate sub-point is attributed to that "
+    "sub-point and not reported again (a second defect of the same form is masked at such super-points only)",
+    "file system writes under the per-process work directory are reliable; the locale encoding is UTF-8",
 ]
 BOUND = {
     "quick": "<= 2 deviations; rows in {1,2,3}; packed data set of 24 rows per schema; fault bases: default tuple "
@@ -1187,6 +1200,16 @@ def file_faults(T, schema, text):
     head, body = lines[: end + 1], [ln for ln in lines[end + 1 :] if ln != ""]
     toks = list(csv.reader(body, delimiter=d))
     names = [f["name"] for f in schema["fields"]]
+    # header lines by role (k-th "- name:" / "type:" line belongs to field k), whatever the quoting style
+    name_ln = [i for i, ln in enumerate(head) if ln.lstrip().startswith("- name:")]
+    type_ln = [i for i, ln in enumerate(head) if ln.lstrip().startswith("type:")]
+    if len(name_ln) != len(T) or len(type_ln) != len(T):
+        raise AssertionError("header layout not understood by the fault editor")
+
+    def setline(i, txt):
+        hd = list(head)
+        hd[i] = txt
+        return hd
 
     def join(hd, tk):
         buf = io.StringIO()
@@ -1206,7 +1229,7 @@ def file_faults(T, schema, text):
         tk = tcopy()
         tk[0][j] = tk[0][j] + "x"
         yield "header_name_changed", {"pos": "first" if j == 0 else "other"}, join(head, tk)
-        hd = [ln + "x" if ln == f"    - name: {names[j]}" else ln for ln in head]
+        hd = setline(name_ln[j], f"    - name: {names[j]}x")
         yield "schema_name_changed", {"pos": "first" if j == 0 else "other"}, join(hd, toks)
         if t in "ifc":
             idx = [i for i, ln in enumerate(head) if ln.startswith("      fill:")]
@@ -1238,11 +1261,8 @@ def file_faults(T, schema, text):
     yield "delim_equals_missing", {}, join(hd, toks)
     hd = [f"  missing: '-{d}'" if ln.startswith("  missing:") else ln for ln in head]
     yield "delim_in_missing", {"bad": "suffix"}, join(hd, toks)
-    first_type = head.index(f"      type: {TCODE[T[0]]}")
-    hd = list(head)
-    hd[first_type] = "      type: text"
-    yield "type_unknown", {"ftype": TCODE[T[0]]}, join(hd, toks)
-    hd = [ln.replace(names[0], "bad name") if ln == f"    - name: {names[0]}" else ln for ln in head]
+    yield "type_unknown", {"ftype": TCODE[T[0]]}, join(setline(type_ln[0], "      type: text"), toks)
+    hd = setline(name_ln[0], "    - name: bad name")
     tk = tcopy()
     tk[0][0] = "bad name"
     yield "name_not_identifier", {"bad": "space", "ftype": TCODE[T[0]]}, join(hd, tk)
@@ -1334,6 +1354,8 @@ def run_fault(key, run):
         expect_error("fault_save", fault, "save", e, lambda: IO.save_scsv(path, schema, bad), unlink=unlink)
     fpath = os.path.join(run.dir, "fault.scsv")
     for fault, extra, btext in file_faults(T, schema, text):
+        if btext == text:
+            raise AssertionError(f"fault editor produced no change for {fault}")
         with open(fpath, "w", encoding="utf-8", newline="") as f:
             f.write(btext)
         res["states"] += 1
